@@ -144,6 +144,13 @@ Fixpoint denote_atom (a : atom) (rho : env) (cm : chanmap) : result (option piec
                                  else match pval r c t with Some y => Some (sgn y) | None => None end)))
           else Err EValue
       end
+  | AFunc d c a b =>
+      match cm c with
+      | None => Ok None
+      | Some m =>
+          dv <- eval rho d ;; av <- eval rho a ;; bv <- eval rho b ;;
+          if Qltb' 0 dv then Ok (Some (mkPiece dv [m] (fun _ t => Some (av + bv * t)))) else Ok None
+      end
   end.
 
 (* ---- composition ---- *)
@@ -204,32 +211,6 @@ Fixpoint at_ (pcs : list piece) (c : chan) (t : Q) : option Q :=
 Definition total (pcs : list piece) : Q := fold_right (fun p acc => Qred (pdur p + acc)) 0 pcs.
 Definition pulse_chans (pcs : list piece) : list chan := match pcs with p :: _ => pchans p | [] => [] end.
 
-(* parameter_names: the parameters a template declares *)
-Fixpoint expr_vars (e : expr) : list N :=
-  match e with
-  | EC _ => []
-  | EV x => [x]
-  | EAdd a b | ESub a b | EMul a b => expr_vars a ++ expr_vars b
-  end.
-Fixpoint atom_params (a : atom) : list N :=
-  match a with
-  | AConst d amps => expr_vars d ++ flat_map (fun ce => expr_vars (snd ce)) amps
-  | ATable chs => flat_map (fun ce => flat_map (fun e => expr_vars (fst (fst e)) ++ expr_vars (snd (fst e))) (snd ce)) chs
-  | APoint es _ => flat_map (fun e => expr_vars (fst (fst e)) ++ flat_map expr_vars (snd (fst e))) es
-  | AMulti l => (fix go (l : list atom) : list N := match l with [] => [] | x :: r => atom_params x ++ go r end) l
-  | AArith l _ r => atom_params l ++ atom_params r
-  end.
-Fixpoint pt_params (p : pt) : list N :=
-  match p with
-  | PAtom a => atom_params a
-  | PSeq l => (fix go (l : list pt) : list N := match l with [] => [] | x :: r => pt_params x ++ go r end) l
-  | PRep n b => expr_vars n ++ pt_params b
-  | PFor idx a b c body => expr_vars a ++ expr_vars b ++ expr_vars c ++ filter (fun x => negb (N.eqb x idx)) (pt_params body)
-  | PMap pm _ b => flat_map (fun x => match nassoc x pm with Some e => expr_vars e | None => [x] end) (pt_params b)
-  | PRev b => pt_params b
-  | PPar b ow => pt_params b ++ flat_map (fun ce => expr_vars (snd ce)) ow
-  | PArith _ _ sc b => pt_params b ++ match sc with inl e => expr_vars e | inr l => flat_map (fun ce => expr_vars (snd ce)) l end
-  end.
 (* the parameter assignment provides every declared parameter (precondition of the property) *)
 Definition accepts (p : pt) (env : list (N * Q)) : bool :=
   forallb (fun x => match nassoc x env with Some _ => true | None => false end) (pt_params p).
